@@ -6,6 +6,7 @@
    [success i] = signing was reached and succeeded with enough active members;
    [run_rev w rh] = number of low-activity heartbeats of wallet w since w's last success, in
                  the history rh given most recent first (no counter involved);
+   [i_wallet i] = the wallet's FULL public key (the integer 04‖X‖Y), the key of the counter map;
    [run] = the model of heartbeatAction.execute over a whole history of all wallets sharing one
            heartbeatFailureCounter. *)
 From Coq Require Import ZArith NArith List Bool.
@@ -70,6 +71,32 @@ Theorem wallets_independent :
     = run minActive thr claimValidity (filter (fun i => N.eqb (i_wallet i) w) h).
 Proof. exact Proofs.C36.wallets_independent. Qed.
 Print Assumptions wallets_independent.
+
+(* wallets with different keys do not interfere, for ANY two different keys a b (however much
+   they resemble each other: P and −P, shared coordinates, shared prefixes): erasing all of b's
+   heartbeats from any history changes nothing of what a's heartbeats output (claims, errors,
+   counter values), and erasing a's changes nothing for b *)
+Theorem different_keys_do_not_interfere :
+  forall minActive thr claimValidity (a b : N) h,
+    a <> b ->
+    let outs_of w h :=
+      map snd (filter (fun p => N.eqb (i_wallet (fst p)) w)
+                      (combine h (run minActive thr claimValidity h))) in
+    let without w h := filter (fun i => negb (N.eqb (i_wallet i) w)) h in
+    outs_of a h = outs_of a (without b h) /\ outs_of b h = outs_of b (without a h).
+Proof. exact Proofs.C36.different_keys_do_not_interfere. Qed.
+Print Assumptions different_keys_do_not_interfere.
+
+(* more generally a wallet's outputs depend on its own heartbeats only *)
+Theorem own_history_only :
+  forall minActive thr claimValidity w h h',
+    filter (fun i => N.eqb (i_wallet i) w) h = filter (fun i => N.eqb (i_wallet i) w) h' ->
+    map snd (filter (fun p => N.eqb (i_wallet (fst p)) w)
+                    (combine h (run minActive thr claimValidity h)))
+    = map snd (filter (fun p => N.eqb (i_wallet (fst p)) w)
+                      (combine h' (run minActive thr claimValidity h'))).
+Proof. exact Proofs.C36.own_history_only. Qed.
+Print Assumptions own_history_only.
 
 (* the threshold regenerated from heartbeat.go: "at least three" *)
 Theorem threshold_at_least_three : 3 <= Concrete.thr.
